@@ -284,6 +284,63 @@ func addFileCase(w *lib.Writer, in In, r Result, bad string) {
 	}
 }
 
+// ---------------- a reader that fails in the middle of the source ----------------
+
+// runFailingReader: LState.Load from a reader that delivers a prefix and then fails with an error
+// other than io.EOF (truncated stream), at every kind of place: inside a line comment, a block
+// comment, a quoted string, a long string, between tokens. Load must come back (no hang, no panic)
+// with an error value - a syntax error or a file error -, never with a function.
+func runFailingReader(w *lib.Writer, r *lib.Rand, tier string) {
+	n := 60
+	if tier == "thorough" {
+		n = 3000
+	}
+	type job struct {
+		src []byte
+		at  int
+	}
+	var jobs []job
+	for _, t := range []string{"x = 1 -- the rest of the file is lost", "x = 'abc def'", "x = [[abc\ndef]]", "--[[ abc\ndef ]] x = 1",
+		"x = [==[abc]==]", "return 1", "x = \"a\\\nb\"", "-- c\n-- d\nreturn"} {
+		for at := 1; at <= len(t); at++ {
+			jobs = append(jobs, job{[]byte(t), at})
+		}
+	}
+	for i := 0; i < n; i++ {
+		cr := r.Fork()
+		src := sampleProgram(cr)
+		jobs = append(jobs, job{src, cr.Range(1, len(src))})
+	}
+	rqs := make([]Request, len(jobs))
+	for i, j := range jobs {
+		rqs[i] = Request{ID: i, Src: HB(j.src), FailAt: j.at, LimitMs: 3000}
+	}
+	res := runAll(rqs, workers)
+	dist := map[string]int{}
+	for i, j := range jobs {
+		rr := res[i]
+		dist[loadNames[rr.Load]]++
+		bad := ""
+		switch rr.Load {
+		case loadSyntax, loadFileErr:
+		case loadFunction:
+			bad = "Load returns a function although the reader failed after " + fmt.Sprint(j.at) + " bytes"
+		default:
+			bad = "Load from a failing reader ended in " + loadNames[rr.Load] + ": " + rr.Msg
+		}
+		if bad == "" {
+			w.Meta.GoOnlyChecked++
+			continue
+		}
+		id := w.NextID()
+		w.Add(lib.Case{Input: In{Kind: "failread", Src: HB(j.src), N: j.at}, Observed: observed(rr), Class: "failing-reader", Nontrivial: true,
+			Coq: "CGoSide false"})
+		w.GoFail(id, bad)
+	}
+	w.Meta.Extra["failing_reader_cases"] = len(jobs)
+	w.Meta.Extra["failing_reader_distribution"] = dist
+}
+
 // ---------------- adversarial sizes ----------------
 
 const advLimitMs = 120000
@@ -313,6 +370,18 @@ func advSource(shape string, n int) []byte {
 			fmt.Fprintf(&sb, "'s%d',", i)
 		}
 		sb.WriteString("}")
+	case "consttable-num": // a flat data table of n distinct numbers (loading time must not be quadratic in n)
+		sb.WriteString("local t = {")
+		for i := 0; i < n; i++ {
+			fmt.Fprintf(&sb, "%d,", i)
+		}
+		fmt.Fprintf(&sb, "}\nreturn t[%d] + #t", n)
+	case "consttable-str":
+		sb.WriteString("local t = {")
+		for i := 0; i < n; i++ {
+			fmt.Fprintf(&sb, "'s%d',", i)
+		}
+		fmt.Fprintf(&sb, "}\nreturn #t .. t[%d]", n)
 	case "numconsts": // n distinct number constants as RK operands
 		for i := 0; i < n; i++ {
 			fmt.Fprintf(&sb, "x = %d + y\n", i+1000)
@@ -462,6 +531,8 @@ func mustAccept(shape string, n int) bool {
 		return n <= 200
 	case "labels-and", "labels-if", "labels-while": // flat code: every jump is short
 		return true
+	case "consttable-num", "consttable-str": // MAXARG_Bx constants per function
+		return n <= 262000
 	}
 	return false
 }
@@ -473,6 +544,10 @@ func expectedReturn(shape string, n int) (string, bool) {
 		return fmt.Sprint(n / 500), true
 	case "labels-if", "labels-while":
 		return fmt.Sprint(n), true
+	case "consttable-num":
+		return fmt.Sprint(2*n - 1), true
+	case "consttable-str":
+		return fmt.Sprintf("%ds%d", n, n-1), true
 	}
 	return "", false
 }
@@ -497,6 +572,8 @@ func advList(tier string) []advCase {
 		// more than 131072 jump labels in one flat function (label numbers must not wrap)
 		{"labels-and", 500}, {"labels-and", 32500}, {"labels-and", 33000}, {"labels-and", 66000},
 		{"labels-if", 40000}, {"labels-if", 44000}, {"labels-if", 90000}, {"labels-while", 30000}, {"labels-while", 50000},
+		// flat data tables: constants are looked up in a map since /repo (was a linear scan: 200000 distinct constants took 130 s)
+		{"consttable-num", 1000}, {"consttable-num", 200000}, {"consttable-str", 200000},
 		{"do", 100000}, {"do", 500000}, // linear since /repo 950d344 (was quadratic: 100000 took a minute)
 		{"tables", 1000000}, // C08-3: kills the process
 	}
